@@ -257,6 +257,10 @@ def run(tier: str, prop: str = "C01") -> int:
     rep = core.Report(prop, tier)
     _t("start")
     fams, scens = scenarios(tier)
+    if prop != "C15":
+        for fam in fams.values():
+            for l in [x for x in fam.labels if "!c15" in x]:
+                del fam.labels[l]
     gaps, have = coverage_gaps(fams)
     meas = {sid: measure(fams[fname], sname) for sid, fname, sname in scens}
     dups = '"copy", "deepcopy", "pickle"' if prop == "C15" else ""
